@@ -261,6 +261,7 @@ func runProp[C any](t *testing.T, ev *Ev, sub string, journal bool, gen func(*ra
 			defer hist.Close()
 		}
 	}
+	startStallWatch()
 	rapid.Check(t, func(rt *rapid.T) {
 		c := gen(rt)
 		if journal {
@@ -319,6 +320,7 @@ func TestReplay(t *testing.T) {
 		t.Fatalf("INFRA: %v", err)
 	}
 	registerAll()
+	startStallWatch()
 	f, ok := replayers[rf.Property+"/"+rf.Sub]
 	if !ok {
 		t.Fatalf("INFRA: no replayer for %s/%s", rf.Property, rf.Sub)
@@ -334,6 +336,54 @@ func TestReplay(t *testing.T) {
 	} else if err != nil {
 		t.Fatalf("REPLAY-FAIL %s/%s: %v", rf.Property, rf.Sub, err)
 	}
+}
+
+// ---- scheduling sentinel ----
+// The agent runs inside the test process. One-sided timing oracles grant it a whole response timeout to act on a
+// datagram that has arrived; on an oversubscribed machine the process as a whole can go unscheduled for longer than
+// that. A sentinel goroutine measures by how much its own 2 ms sleeps overshoot; a timing verdict that coincides with
+// a stall of the process is discarded (DISCARD), never reported.
+type stallEv struct {
+	at time.Time
+	d  time.Duration
+}
+
+var stallLog struct {
+	mu   sync.Mutex
+	ev   []stallEv
+	once sync.Once
+}
+
+func startStallWatch() {
+	stallLog.once.Do(func() {
+		go func() {
+			for {
+				t0 := time.Now()
+				time.Sleep(2 * time.Millisecond)
+				if over := time.Since(t0) - 2*time.Millisecond; over > 8*time.Millisecond {
+					stallLog.mu.Lock()
+					if len(stallLog.ev) >= 8192 {
+						stallLog.ev = append(stallLog.ev[:0], stallLog.ev[4096:]...)
+					}
+					stallLog.ev = append(stallLog.ev, stallEv{t0, over})
+					stallLog.mu.Unlock()
+				}
+			}
+		}()
+	})
+}
+
+// maxStall is the longest overshoot of the sentinel whose sleep overlapped [from, to].
+func maxStall(from, to time.Time) time.Duration {
+	stallLog.mu.Lock()
+	defer stallLog.mu.Unlock()
+	var m time.Duration
+	for _, e := range stallLog.ev {
+		if e.at.Before(to) && e.at.Add(e.d+2*time.Millisecond).After(from) && e.d > m {
+			m = e.d
+		}
+	}
+	return m
 }
 
 // discardReason is the part of a DISCARD message before the first semicolon.
